@@ -3,7 +3,10 @@
 package schedx
 
 import (
+	"encoding/json"
 	"fmt"
+	"os"
+	"os/exec"
 	"strings"
 
 	"github.com/istio-ecosystem/authservice/zzverif/ev"
@@ -42,6 +45,10 @@ type Scenario struct {
 	// OnceOnly: violations are facts reported once per process by an external oracle (the race runtime de-duplicates
 	// its reports), so they cannot be confirmed by replaying the schedule.
 	OnceOnly bool
+	// FreshProcess: every execution runs in a new process (scenarios whose subject is process-wide state at start-up).
+	// Prop is the property whose vcheck sub-command re-creates the scenario in the child.
+	FreshProcess bool
+	Prop         string
 	// FuncPoints: function entries of the repository's packages are scheduling points (needs an ovgen -funcpoints build).
 	FuncPoints bool
 }
@@ -63,7 +70,72 @@ type Replay struct {
 	Trace    []string `json:"trace,omitempty"`
 }
 
+// ChildResult is what a fresh-process execution reports back.
+type ChildResult struct {
+	Trace    []vsched.Point `json:"trace"`
+	Deadlock bool           `json:"deadlock"`
+	Obs      string         `json:"obs"`
+	Viols    []Violation    `json:"viols"`
+	Err      string         `json:"err,omitempty"`
+}
+
+// RunChild executes one schedule of sc in this process and prints the result (the child side of FreshProcess).
+func RunChild(sc Scenario, prefix []int) {
+	sc.FreshProcess = false
+	x, obs, viols, err := runOnce(sc, prefix)
+	res := ChildResult{Obs: obs, Viols: viols}
+	if x != nil && x.Sched != nil {
+		res.Trace, res.Deadlock = x.Sched.Trace, x.Sched.Deadlock
+	}
+	if err != nil {
+		res.Err = err.Error()
+	}
+	b, _ := json.Marshal(res)
+	fmt.Println("SCHED-CHILD-RESULT " + string(b))
+}
+
+func runRemote(sc Scenario, prefix []int) (*Exec, string, []Violation, error) {
+	exe, err := os.Executable()
+	if err != nil {
+		return nil, "", nil, err
+	}
+	pb, _ := json.Marshal(prefix)
+	cmd := exec.Command(exe, sc.Prop, "--verif", os.TempDir())
+	cmd.Env = append(os.Environ(), "VERIF_SCHED_CHILD="+sc.Name, "VERIF_SCHED_PREFIX="+string(pb))
+	out, runErr := cmd.CombinedOutput()
+	var res ChildResult
+	found := false
+	for _, ln := range strings.Split(string(out), "\n") {
+		if strings.HasPrefix(ln, "SCHED-CHILD-RESULT ") {
+			if json.Unmarshal([]byte(strings.TrimPrefix(ln, "SCHED-CHILD-RESULT ")), &res) == nil {
+				found = true
+			}
+		}
+	}
+	if !found {
+		return &Exec{Sched: &vsched.Sched{}}, "", nil, fmt.Errorf("fresh-process execution gave no result (%v): %s", runErr, lastN(string(out), 400))
+	}
+	x := &Exec{Sched: &vsched.Sched{Trace: res.Trace, Deadlock: res.Deadlock}}
+	for _, p := range res.Trace {
+		x.Choices = append(x.Choices, p.Chosen)
+	}
+	if res.Err != "" {
+		return x, res.Obs, res.Viols, fmt.Errorf("%s", res.Err)
+	}
+	return x, res.Obs, res.Viols, nil
+}
+
+func lastN(s string, n int) string {
+	if len(s) > n {
+		return s[len(s)-n:]
+	}
+	return s
+}
+
 func runOnce(sc Scenario, prefix []int) (*Exec, string, []Violation, error) {
+	if sc.FreshProcess && os.Getenv("VERIF_SCHED_CHILD") == "" {
+		return runRemote(sc, prefix)
+	}
 	inst := sc.Setup()
 	if inst.Close != nil {
 		defer inst.Close()
@@ -243,6 +315,9 @@ func Explore(run *ev.Run, prop string, sc Scenario) Stats {
 	st.BoundDone = sc.Bound
 	return st
 }
+
+// RunOnce executes one schedule (prefix, then default choices) and returns the execution, its observation and violations.
+func RunOnce(sc Scenario, prefix []int) (*Exec, string, []Violation, error) { return runOnce(sc, prefix) }
 
 // ReplayOnce re-executes one recorded schedule; returns observation and violations.
 func ReplayOnce(sc Scenario, choices []int) (string, []Violation, error) {
